@@ -29,7 +29,7 @@ def _obj_name(e, ev, env):
 
 
 class Model:
-    def __init__(self, F):
+    def __init__(self, F, strict=True):
         self.F = F
         self.funcs = F['functions']
         self.ev = Evaluator(F)
@@ -40,6 +40,9 @@ class Model:
         self.cells = {}       # offset -> dict
         self.problems = []
         self._block(self.ctor['body'], {})
+        if strict and self.problems:
+            line, msg = self.problems[0]
+            raise AnalysisBroken('MMIORegion::MMIORegion line %s: %s (the MMIO binding table could not be read)' % (line, msg))
 
     def cell(self, off, line):
         return self.cells.setdefault(off, {'offset': off, 'set': None, 'get': None, 'slots': None, 'kind': 'default',
